@@ -7,7 +7,7 @@
    (corpus/C05/f_c05{b,c,d}.json -> open findings F-C05b..d; f_c05a.json is a regression case). *)
 From Coq Require Import NArith ZArith List Bool Arith.
 From Snap.Array Require Import ArrayDefs SyncModel.
-From Snap.Fix Require Import FixModel HistModel Witnesses RepairProofs PartialProofs Examples.
+From Snap.Fix Require Import FixModel HistModel Witnesses RepairProofs PartialProofs Examples RunProofs RunExamples.
 Import ListNotations.
 
 (* the statement (Witnesses.fix_never_wrong), unfolded once so that it can be read here *)
@@ -94,3 +94,17 @@ Example C05_past_hash_inv_broken_by_zero :
   ~ past_hash_inv x_hashf x_padz x_bs (mkFE true false 0 (Some SChg) HZero (Some (x_f1, 0%nat))) 22%N.
 Proof. exact x_past_hash_inv_broken_by_zero. Qed.
 Print Assumptions C05_past_hash_inv_broken_by_zero.
+
+(* OPEN finding F-C05-fix-start-range-recovers-file-with-hole (model witness, by computation; the harness replays the recipe on the
+   tool in every run): `fix -S 1` on an array whose file 1 (positions 0 1 2) is missing creates the file at position 1, rebuilds
+   blocks 1 and 2, finishes it at its last block: reported recovered, recorded time-stamp, exit status 0 -- block 0 is the zero
+   block, not the recorded block 11: a wrong file left under its name without any report *)
+Example C05_fix_start_range_hole_witness :
+  let fs := [Some []; Some [mkFF 2 2048 100 0 2 [21; 22]%N]] in
+  let out := check_run x_hashf x_padz x_truncf x_bs 2 false x_newino 999 rx_fix rx_c rx_par_ok fs [] [1; 2] in
+  fs_find (r_fs (out_st out)) 0 1 = Some (mkFF 1 2560 100 0 901 [0; 12; 13]%N)
+  /\ In (K_ST_RECOVERED, [0; 1]%N) (r_tags (out_st out))
+  /\ out_fail out = false /\ r_unrec (out_st out) = 0
+  /\ nth 0 [0; 12; 13]%N 0%N <> vnth (rx_vs 0) 0.
+Proof. exact rx_fix_start_range_hole. Qed.
+Print Assumptions C05_fix_start_range_hole_witness.
